@@ -121,6 +121,8 @@ def _process_string_field_value(path: List[str], value: Any, current_type: Any, 
                 raise e
         return value
     elif token == 'O':
+        if value is None:
+            return None
         return _process_string_field_value(
             path=path,
             value=value,
